@@ -7,7 +7,8 @@ and none of the mistakes checked before it, is rejected with this class, whateve
   rejects_no_variant, rejects_varying_names, rejects_slash_name, rejects_duplicate_plain,
   rejects_unknown_shell, rejects_non_command_spec, rejects_duplicate_target_spec, rejects_cycle
 (definitions that refer to each other in a circle: the depth-first traversal that orders the
-definitions cannot succeed, `Proofs/Topo.lean` + `Proofs/Cycle.lean`),
+definitions cannot succeed, `Proofs/Topo.lean` + `Proofs/Cycle.lean`) with its converse
+`cycle_verdict_real` (the verdict is given only when such a circle exists),
 and `error_is_final`: an error of validation is the verdict of the whole pipeline.  The classes
 decided later in the pipeline (spaces inside a word, non-tail placeholder, conflicting
 descriptions) and `accepts_clean` are open; they are decided per grammar by the run.
@@ -111,6 +112,13 @@ theorem rejects_cycle (g : Grammar) (sh : Shell) (n : String) (h : OneCommand g 
     (hcyc : Reach (depGraph (tableOf sh g)) v v) :
     ∃ spans, validate g sh = .err .nonterminalDefinitionsCycle spans :=
   validate_cycle g sh n (commandOf_ok g n h hs) hd specs fbs hgs v hcyc
+
+open Complgen.Check in
+/-- conversely the cycle verdict is only given for a real cycle (no false "cycle" diagnostics) -/
+theorem cycle_verdict_real (g : Grammar) (sh : Shell) (spans : List Span)
+    (h : validate g sh = .err .nonterminalDefinitionsCycle spans) :
+    ∃ u, Reach (depGraph (tableOf sh g)) u u :=
+  validate_cycle_real g sh spans h
 
 /-- an error of validation is the verdict of the whole pipeline, for every work-list schedule -/
 theorem error_is_final (σ : Schedule) (g : Grammar) (sh : Shell) (c : Check.ErrClass) (s : List Span)
